@@ -356,7 +356,11 @@ Definition xdiag_gen (keyok : xin -> hmap -> hmap -> str -> bool) (extra : list 
 Definition xdiag (c : xcase) : list str := xdiag_gen xkey_ok [] (x_in c) (x_obs c).
 
 (* ---------- configured proxies: --header rules and --credentials ---------- *)
-Record ycase := { y_cfg : pcfg; y_in : xin; y_obs : xobs }.
+(* y_cfg carries what the REAL CredentialsMatcher answered for the request's URL (the model's input, used for the
+   correspondence); y_want is what the documented precedence selects from the --credentials table (exact host:port,
+   then *:port, then host:*, then *:*; default ports 80 / 443), computed independently by the harness's reference:
+   the property predicate expects the Authorization of y_want. *)
+Record ycase := { y_cfg : pcfg; y_want : option (str * str); y_in : xin; y_obs : xobs }.
 Definition ycase_model_ok (c : ycase) : bool := xobs_matches (e2e_model_cfg (y_cfg c) (y_in c)) (y_in c) (y_obs c).
 (* names outside the documented set: after the hop-by-hop removal, rewritten by the configured request rules, then
    the site credentials; when a rule acts on a documented field only the correspondence is checked for the case *)
@@ -365,8 +369,10 @@ Definition ykey_ok (cfg : pcfg) (x : xin) (hin hout : hmap) (k : str) : bool :=
   else if mem k xdoc_keys then xkey_ok x hin hout k
   else opt_vals_eqb (raw_get k hout)
          (raw_get k (site_auth_spec cfg (G16.Model.apply_rules (p_request_rules cfg) (after_removal hin)))).
-Definition ycase_prop_ok (c : ycase) : bool := xprop_ok (ykey_ok (y_cfg c)) [k_authorization] (y_in c) (y_obs c).
-Definition ydiag (c : ycase) : list str := xdiag_gen (ykey_ok (y_cfg c)) [k_authorization] (y_in c) (y_obs c).
+Definition want_cfg (c : ycase) : pcfg :=
+  {| p_request_rules := p_request_rules (y_cfg c); p_connect_rules := p_connect_rules (y_cfg c); p_cred := y_want c |}.
+Definition ycase_prop_ok (c : ycase) : bool := xprop_ok (ykey_ok (want_cfg c)) [k_authorization] (y_in c) (y_obs c).
+Definition ydiag (c : ycase) : list str := xdiag_gen (ykey_ok (want_cfg c)) [k_authorization] (y_in c) (y_obs c).
 
 (* ---------- proxyConn.readRequest: which read deadline is armed while the BODY is read ----------
    hdr / whole = the header and whole-request deadlines (None = zero time = no deadline).  After the head has been
